@@ -51,6 +51,7 @@ type session struct {
 	manifest       *journal.Writer
 	manifestWriter storage.Writer
 	manifestFd     storage.FileDesc
+	manifestErr    bool // last write to the manifest failed; need external synchronization
 
 	stCompPtrs  []internalKey // compaction pointers; need external synchronization
 	stVersion   *version      // current version
@@ -228,7 +229,9 @@ func (s *session) commit(r *sessionRecord, trivial bool) (err error) {
 	if s.manifest == nil {
 		// manifest journal writer not yet created, create one
 		err = s.newManifest(r, nv)
-	} else if s.manifest.Size() >= s.o.GetMaxManifestFileSize() {
+	} else if s.manifest.Size() >= s.o.GetMaxManifestFileSize() || s.manifestErr {
+		// The manifest is full, or a write to it failed: a journal writer
+		// stays in error state once a write failed, so start a new manifest.
 		// pass a sessionRecord without tables to avoid over-reference table
 		// file, but keep the journal and sequence numbers being committed.
 		nr := &sessionRecord{}
@@ -245,6 +248,7 @@ func (s *session) commit(r *sessionRecord, trivial bool) (err error) {
 	} else {
 		err = s.flushManifest(r)
 	}
+	s.manifestErr = err != nil
 
 	// finally, apply new version if no error rise
 	if err == nil {
